@@ -13,6 +13,8 @@ def make_source(spec):
         return simsched.Sparse(spec.get("preempts", []), spec.get("forced", []))
     if k == "random":
         return simsched.RandomSource(spec.get("seed", 0), spec.get("p", 0.15))
+    if k == "hot":
+        return simsched.HotRandom(spec.get("seed", 0), spec.get("p_hot", 0.3), spec.get("p_cold", 0.01))
     if k == "pct":
         return simsched.PCT(spec.get("seed", 0), spec.get("depth", 2), spec.get("est", 400))
     if k == "replay":
@@ -31,4 +33,6 @@ def schedule_strategy(max_gap=120, max_preempts=4):
     rnd = st.builds(lambda s, p: {"kind": "random", "seed": s, "p": p}, st.integers(0, 10 ** 9), st.sampled_from([0.02, 0.05, 0.1, 0.2, 0.4]))
     pct = st.builds(lambda s, d, e: {"kind": "pct", "seed": s, "depth": d, "est": e}, st.integers(0, 10 ** 9), st.integers(1, 3),
                     st.sampled_from([100, 300, 800]))
-    return st.one_of(sparse, sparse, rnd, pct)
+    hot = st.builds(lambda s, ph, pc: {"kind": "hot", "seed": s, "p_hot": ph, "p_cold": pc}, st.integers(0, 10 ** 9),
+                    st.sampled_from([0.15, 0.3, 0.5]), st.sampled_from([0.0, 0.01, 0.03]))
+    return st.one_of(sparse, rnd, pct, hot, hot)
